@@ -229,6 +229,7 @@ Commit ==
         /\ ChkC("C06", "failed-call-changes-nothing", ci,
                 IsErr(E.calls[ci]) => E.calls[ci].before = E.calls[ci].after)
         /\ ChkC("C03", "call-has-sequential-effect", ci, CallOK(E.calls[ci]))
+        /\ ChkC("C29", "isolated-call-acts-on-the-isolated-state", ci, Len(E.iso) > 0 => CallOK(E.calls[ci]))
   /\ \A ci \in 1..(Len(E.calls) - 1) :
         ChkC("C03", "reads-stable-between-calls", ci, E.calls[ci].after = E.calls[ci + 1].before)
   /\ Chk("C03", "committed-state-equals-last-transaction-view",
